@@ -163,10 +163,9 @@ OneShot(r) == CASE r.op = "bits" -> CeilDiv(r.n, WB) [] r.op = "bigint" -> CeilD
                 [] r.op \in {"urange", "irange"} -> CeilDiv(BitLen(r.hi - r.lo), WB)
                 [] r.op = "uniform_incl" -> CeilDiv(BitLen(r.hi - r.lo + 1), WB)
 \* among the streams of exactly one candidate's length, every value of the interval is produced, each by the same number of streams
-Unbiased(r) == LET n == OneShot(r)
-                   hits == [v \in Interval(r) |-> Cardinality({t \in Streams(n) : LET f == Func(r, t) IN f.ok /\ f.v = v})]
-               IN /\ \A v \in Interval(r) : hits[v] > 0
-                  /\ \A v, w \in Interval(r) : hits[v] = hits[w]
+Hits(r, v) == Cardinality({t \in Streams(OneShot(r)) : LET f == Func(r, t) IN f.ok /\ f.v = v})
+Unbiased(r) == LET ref == Hits(r, CHOOSE w \in Interval(r) : TRUE)
+               IN ref > 0 /\ \A v \in Interval(r) : Hits(r, v) = ref
 CoverageHolds == \A r \in {q \in Reqs : Documented(q) /\ OneShot(q) <= MaxDraw} : Unbiased(r)
 ASSUME CoverageHolds
 =============================================================================
